@@ -773,3 +773,30 @@ v('C10', 'async-never-signals', 'c10.go-closure', (P, '''				defer query.wg.Done
 				defer query.reportPanic()
 				value, err := function(query, current, nil, slice)''', '''				defer query.reportPanic()
 				value, err := function(query, current, nil, slice)'''))
+
+# ---- round 9: the Go-language rules under a property other than the one whose seed introduced them
+v('C16', 'go-shadow: the quoted string goes into a shadow of str', 'go.shadow-stale', (Z, '''				str = QuoteString(arg)
+''', '''				str := QuoteString(arg)
+				_ = str
+'''))
+v('C16', 'written text padded with blanks', 'c16.accounting', (Z, '''			argUse[argIdx] = true
+''', '''			argUse[argIdx] = true
+			str = " " + str + " "
+'''))
+v('C06', 'go-iface-compare: Distinct skips a repeat of the item before it', 'go.iface-compare', (S, '''			for _, item := range data {
+				sha256 := sha256.New()''', '''			for index, item := range data {
+				if index > 0 && item == data[index-1] {
+					continue
+				}
+				sha256 := sha256.New()'''))
+v('C13', 'callback called without the nil test (reportPanic)', 'c10.callback-guarded', (P, '''		if query.options.errors != nil {
+			query.options.errors(RecoveredError(r))
+		}''', '''		query.options.errors(RecoveredError(r))'''))
+v('C04', 'parallel hash join probes every other key', 'c04.every-key-probed', (J, '''	for lk := range l.Rows {
+		wg.Add(1)
+		go func(lk string) {''', '''	for lk := range l.Rows {
+		if len(lk)%2 == 1 {
+			continue
+		}
+		wg.Add(1)
+		go func(lk string) {'''))
